@@ -59,6 +59,19 @@ def main(tier, seed):
     from common import Rng
     rng = Rng(seed + 77)
     extra = S.gen_cases(rng, n, FULL, maxlen=18, prefix="f")
+    # wide directories: 70-140 data files (max_file_size 0: one record per file), every file eligible; one pass must leave exactly
+    # the live pairs (seed C13-E: a pass that takes at most 64 input files was missed while no history had more than ~20 files)
+    for w in range({"quick": 3, "thorough": 12}[tier]):
+        r = rng.fork()
+        cfg = S.gen_cfg(r)
+        cfg.update({"mfs": 0, "frag": (0, 1), "dead": 0, "small": 10 ** 9})
+        nfiles = r.rng(70, 140)
+        ops = []
+        for i in range(nfiles):
+            k = b"w%d" % r.rng(0, nfiles // 2)
+            ops.append(("del", k) if r.chance(1, 6) else ("set", k, b"x" * r.rng(0, 12)))
+        ops += [("ls",), ("merge",), ("ls",), ("merge",), ("ls",), ("dump",)]
+        extra.append(S.Case("wide%d" % w, cfg, ops))
     return storecheck.run("C13", tier, seed, PROFILE, n, corpus=extra, maxlen=20, extra_oracle=size_oracle, line_norm=ls_norm,
                           relevant=lambda o: o[0] in ("ls", "merge"),
                           rule="Total size of *.data files listed before and after every merge; half of the scripts use thresholds "
